@@ -53,16 +53,14 @@ impl TypeName {
                     .collect::<String>()
                     .trim_end_matches('_')
                     .to_string();
-                let res = match self.name_index.get_mut(&name) {
-                    None => {
-                        self.name_index.insert(name.clone(), 0);
-                        name
-                    }
-                    Some(v) => {
-                        *v += 1;
-                        format!("{name}_{v}")
-                    }
-                };
+                // A made-up name must not coincide with the name of another type (`A`, `A`, `A_1`).
+                let mut res = name.clone();
+                while self.name_index.contains_key(&res) {
+                    let v = self.name_index.entry(name.clone()).or_insert(0);
+                    *v += 1;
+                    res = format!("{name}_{v}");
+                }
+                self.name_index.insert(res.clone(), 0);
                 self.type_name.insert(id.clone(), res.clone());
                 res
             }
